@@ -484,6 +484,30 @@ impl Run {
                     );
                 }
             }
+            "reply_unsolicited" => {
+                // a well-formed reply, correctly tagged for a requestor that is registered -- which has not asked
+                // for it (or has not asked for anything yet).  The router does not keep track of who asked what:
+                // it is a reply for that requestor like any other.
+                let salt = self.salt;
+                self.junk_n += 1;
+                let n = 100_000 + self.junk_n;
+                let c = st.arg;
+                let rid = self.ctx.lock().unwrap().rid.get(&c).copied();
+                if let (Some(s), Some(rid)) = (self.svs.get_mut(&st.id), rid) {
+                    if s.st.st().ended {
+                        return;
+                    }
+                    let body = format!("rep:{}:{}:ok:{:016x}", c, n, salt.wrapping_mul(n + 31 * c));
+                    let frame = Frame::Message(MessagePayload {
+                        headers: Some(HashMap::from([("cid".to_string(), rid.to_string())])),
+                        message: Bytes::from(body),
+                    });
+                    self.ctx.lock().unwrap().replies.insert((st.id, c, n), frame.clone());
+                    s.st.st().queue.push_back(frame);
+                    let fired = s.st.fire();
+                    self.log.emit("env", json!({"what": "reply", "id": st.id, "item": [c, n], "tag": "ok", "fired": fired}));
+                }
+            }
             "sv_end" | "sv_err" => {
                 if let Some(s) = self.svs.get_mut(&st.id) {
                     if s.st.st().ended {
@@ -663,6 +687,8 @@ fn random_schedule(rng: &mut StdRng, k: u64, len: usize) -> Schedule {
             Step { op: "request".into(), id, which: hdr.into(), arg: fits, role: String::new() }
         } else if r < 64 && nsv > 0 && reqs > 0 {
             Step { op: "reply".into(), id: rng.gen_range(1..=nsv), which: String::new(), arg: rng.gen_range(1..=reqs.min(6)), role: String::new() }
+        } else if r < 65 && nsv > 0 && ncl > 0 && k % 3 == 1 {
+            Step { op: "reply_unsolicited".into(), id: rng.gen_range(1..=nsv), which: String::new(), arg: rng.gen_range(1..=ncl), role: String::new() }
         } else if r < 67 && nsv > 0 && faulty {
             let tag = ["missing", "unknown", "malformed", "junk"][rng.gen_range(0..4)];
             Step { op: "bad_reply".into(), id: rng.gen_range(1..=nsv), which: tag.into(), arg: 0, role: String::new() }
